@@ -163,7 +163,10 @@ def class_case(draw, alg):
          "ordmin": draw(st.sampled_from([0, 0, 1, 2, 3])),
          "cov_max": draw(st.sampled_from([1e-4, 1e-2, 0.2, 1e6])),
          "nxseg": draw(st.sampled_from([128, 256])), "method_SD": draw(st.sampled_from(["per", "cor"])),
-         "refsub": draw(st.booleans())}
+         "refsub": draw(st.booleans()),
+         # in a third of the cases the same algorithm object ran before with other criteria, which the user then changed
+         "first_hc": draw(st.one_of(st.none(), st.none(), st.fixed_dictionaries({"conj": st.booleans(), "xi_max": st.sampled_from([0.02, 0.5, 1.0]),
+                                    "mpc_lim": st.sampled_from([0.0, 0.6, 0.95]), "mpd_lim": st.sampled_from([PI2, 0.2, 0.02]), "cov_max": st.sampled_from([1e-5, 1e6])})))}
     r = 2 if (alg.startswith("SSI") and c["refsub"] and nch >= 3) else nch
     if ms:
         c["nsetup"] = draw(st.integers(2, 3))
@@ -249,6 +252,18 @@ def judge_class(case):
             kw["ref_ind"] = ref_ind
         a = cls(**kw)
     setup.add_algorithms(a)
+    if case.get("first_hc"):
+        first = dict(case["first_hc"])
+        if alg in ("pLSCF", "pLSCF_MS"):
+            first.pop("cov_max")
+        final = a.run_params.hc
+        a.run_params.hc = first
+        r0 = sut(setup.run_by_name, "a")
+        a.run_params.hc = final
+        j.tag("criteria-changed-before-rerun")
+        if raised(r0):
+            j.skip("first-run-raised")
+            return j
     r = sut(setup.run_by_name, "a")
     if not j.check(not raised(r), "run-raises", lambda: f"{r!r}"):
         return j
